@@ -576,11 +576,15 @@ def nullwalk(run, fx):
             l = fn.strip(e['c'][0])
             if l['k'] == 'DeclRefExpr' and l.get('vid') is not None:
                 tgt, rhs = l, fn.strip_all_casts(e['c'][1])
-        if tgt is None or rhs is None or rhs['k'] != 'CXXMemberCallExpr' or (rhs.get('fq') or '') not in ('graphite2::Slot::prev', 'graphite2::Slot::next') or rhs.get('args'):
+        if tgt is None or rhs is None:
             continue
-        ob = fn.strip_all_casts(fn.N(rhs['obj'])) if rhs.get('obj') is not None else None
-        if ob is not None and ob['k'] == 'DeclRefExpr' and ob.get('vid') == tgt['vid']:
-            walkers[tgt['vid']] = tgt['d'].split('::')[-1]
+        # `s = s->prev()`, `s = rtl ? s->prev() : s->next()`: any step of the variable along its own links
+        for x in fn.walk(e['c'][1]):
+            if x['k'] != 'CXXMemberCallExpr' or (x.get('fq') or '') not in ('graphite2::Slot::prev', 'graphite2::Slot::next') or x.get('args'):
+                continue
+            ob = fn.strip_all_casts(fn.N(x['obj'])) if x.get('obj') is not None else None
+            if ob is not None and ob['k'] == 'DeclRefExpr' and ob.get('vid') == tgt['vid']:
+                walkers[tgt['vid']] = tgt['d'].split('::')[-1]
     if len(walkers) < 1:
         run.broken('LINEBREAK', 'walks in positionSlots stop at the end of the chain', 'no `s = s->prev()/next()` walk found in Segment::positionSlots', fn.where())
         return
